@@ -3,7 +3,7 @@ from props import element_common as ec
 
 NAMESPACE = 'C18'
 LEAN_TARGETS = ['MxV.Props.C18']
-THEOREMS = ['unchecked_add_total', 'unchecked_insertion_order', 'unchecked_eq_checked']
+THEOREMS = ['unchecked_add_total', 'unchecked_insertion_order', 'unchecked_eq_checked', 'unchecked_eq_checked_slotted']
 TRUSTED_BASE = ['Lean 4.33.0 kernel', 'axioms: propext, Quot.sound, Classical.choice only (audited per theorem)',
                 'translator extract/*.py (attribute / validator / template tables regenerated every run)',
                 'correspondence harness: real XMLElement trees vs the Lean models Element, Values, Serialize, Parser, Mfull through mxdriver',
